@@ -263,7 +263,9 @@ func runCheck(cfg checkCfg) int {
 			case "failed", "undecided":
 				_, inBase := baseline.Obligations[o.Name]
 				safetySat := res.Status == "failed" && isSafetyKind(o.Kind)
-				if inBase || safetySat || len(baseline.Obligations) == 0 || res.Status == "failed" {
+				// labelled obligations (ensures, requires at call sites, invariants, frames, lemmas) must discharge on every
+				// run; ordinal-named safety obligations of new code shapes alarm only with a model or when they were in the baseline
+				if inBase || safetySat || !isSafetyKind(o.Kind) || res.Status == "failed" {
 					path := writeReplay(cfg.prop, o, res)
 					suffix := " no-failing-input-found"
 					if res.Status == "failed" && len(res.Model) > 0 {
@@ -395,7 +397,7 @@ func outDir() string {
 
 func isSafetyKind(k string) bool {
 	switch k {
-	case "index", "slice", "make", "alloc-bound", "panic", "divzero", "typeassert", "nilmap", "overflow":
+	case "index", "slice", "make", "alloc-bound", "panic", "divzero", "typeassert", "nilmap", "overflow", "recursion":
 		return true
 	}
 	return false
